@@ -28,6 +28,7 @@ def P(*ops):
             elif o == "N": out.append(op("notify"))
             elif o.startswith("set"): out.append(op("set", v=int(o[3]), x=int(o[4])))
             elif o.startswith("G"): out.append(op("gate", x=int(o[1:])))
+            elif o.startswith("get"): out.append(op("get", v=int(o[3])))
             else: raise ValueError(o)
         else:
             out.append(o)
